@@ -52,6 +52,7 @@ class StatResult:
         self.st_nlink = st_nlink
         self.st_size = st_size
         self.st_uid = 0
+        self.st_rdev = 0
         self.st_gid = 0
         self.st_mtime_ns = mtime
         self.st_ctime_ns = ctime
@@ -680,7 +681,7 @@ class FakeOS:
         self.replace = fs.replace
         self.link = fs.link
         self.symlink = fs.symlink
-        self.readlink = fs.readlink
+        self.readlink = lambda p: _readlink(self, p)
         self.mkdir = fs.mkdir
         self.makedirs = fs.makedirs
         self.rmdir = fs.rmdir
@@ -860,3 +861,64 @@ def _samefile(self, a, b):
 
 FakeOS.fstat = _fstat
 FakePath.samefile = _samefile
+
+
+# ---------------------------------------------------------------- scandir ----
+class FakeDirEntry:
+    def __init__(self, fs, dirpath, name, as_bytes):
+        self.fs = fs
+        self._p = posixpath.join(dirpath, name)
+        self.name = name.encode() if as_bytes else name
+        self.path = self._p.encode() if as_bytes else self._p
+
+    def is_dir(self, follow_symlinks=True):
+        q = self.fs._resolve(self._p, follow=follow_symlinks)
+        return q in self.fs.dirs
+
+    def is_file(self, follow_symlinks=True):
+        q = self.fs._resolve(self._p, follow=follow_symlinks)
+        n = self.fs.names.get(q)
+        return n is not None and n.kind == 'f'
+
+    def is_symlink(self):
+        n = self.fs.names.get(self.fs._resolve(self._p, follow=False))
+        return n is not None and n.kind == 'l'
+
+    def stat(self, follow_symlinks=True):
+        return self.fs._stat_of(self.fs._resolve(self._p, follow=follow_symlinks), self._p)
+
+
+class _ScanIter:
+    def __init__(self, entries):
+        self.entries = entries
+
+    def __enter__(self):
+        return iter(self.entries)
+
+    def __exit__(self, *a):
+        return False
+
+    def __iter__(self):
+        return iter(self.entries)
+
+    def close(self):
+        pass
+
+
+def _scandir(self, p='.'):
+    as_bytes = isinstance(p, bytes)
+    q = self.fs.norm(p)
+    names = self.fs.listdir(q)
+    # directory order is arbitrary on real file systems: reversed here so that code relying
+    # on listing order shows up
+    return _ScanIter([FakeDirEntry(self.fs, q, n, as_bytes) for n in reversed(names)])
+
+
+def _readlink(self, p):
+    r = self.fs.readlink(p)
+    return r.encode() if isinstance(p, bytes) else r
+
+
+FakeOS.scandir = _scandir
+FakeOS.fsencode = staticmethod(lambda s: s.encode() if isinstance(s, str) else s)
+FakeOS.fsdecode = staticmethod(lambda s: s.decode() if isinstance(s, bytes) else s)
